@@ -410,6 +410,35 @@ class RegisterHandler(Unit):
         return dict(confirmed=False, call='register_exception_handler', observed='')
 
 
+class HandlerDecorator(Unit):
+    """@connection.exception_handler(E1, E2, early=...) is register_exception_handler(f, E1, E2, early=...), returns f."""
+    prop = 'C14'
+    name = 'C14.decorator'
+    int_mode = 'int'
+    functions = (C_ + 'exception_handler', C_ + 'register_exception_handler')
+
+    def run(self, I):
+        E = I.E
+        k = E.fork(3, 'early')
+        kw = {} if k == 0 else {'early': k == 2}
+        types_ = (E1, E3)[:E.fork(3, 'types')]
+        f = lambda e, i: None
+        a, b = object.__new__(Connection), object.__new__(Connection)
+        for c in (a, b):
+            c.__dict__['_exception_handlers'] = [('h0', ()), ('h1', (E1,))]
+        dec = I.call(I.getattr_(a, 'exception_handler'), *types_, **kw)
+        E.check('decorator.lazy', len(a.__dict__['_exception_handlers']) == 2)
+        r = I.call(dec, f)
+        I.call(I.getattr_(b, 'register_exception_handler'), f, *types_, **kw)
+        E.check('decorator.returns-function', r is f)
+        E.check('decorator.same-as-register', a.__dict__['_exception_handlers'] == b.__dict__['_exception_handlers'],
+                note='same position (head for early, tail otherwise) and same type filter as the direct registration')
+        return None
+
+    def replay(self, model, label):
+        return dict(confirmed=False, call='Connection.exception_handler decorator', observed='')
+
+
 class ConnProbe(object):
     """Stand-in for the Connection as seen by NetworkingThread.run: records every slot assignment with the
     lock depth at that moment."""
@@ -565,4 +594,8 @@ def c15_units():
 
 
 def units(tier):
-    return [RegisterHandler(), Chain(), ChainUnrolled(), ThreadWrapper()]
+    from . import c11
+    rl = c11.RunLoop()
+    # exceptions of the reader / the reactions must reach run() unchanged, where they are routed
+    rl.prop, rl.name = 'C14', 'C14.run-loop.propagates'
+    return [RegisterHandler(), HandlerDecorator(), Chain(), ChainUnrolled(), ThreadWrapper(), rl]
